@@ -26,10 +26,12 @@ pub(crate) fn update_backtracks<A>(dfa: &mut DFA<StateIdx, A>) {
         // Did we visit the state, with the right backtrack state?
         match visited.entry(state) {
             Entry::Occupied(mut entry) => {
-                if *entry.get() == backtrack {
+                // Only re-visit when the state becomes backtracking: the property is monotone
+                // (once reachable after an accepting state, always backtracking).
+                if *entry.get() || !backtrack {
                     continue;
                 }
-                entry.insert(backtrack);
+                entry.insert(true);
             }
             Entry::Vacant(entry) => {
                 entry.insert(backtrack);
